@@ -23,8 +23,9 @@ impl Huge {
     /// 2: dense prefix of 2^20 bits, then ones at prescribed huge gaps
     pub fn new(j: u64) -> Huge {
         let delta = [65usize, 4097, 0, 1, 64, (1 << 31) + 12345][(j / 5) as usize % 6];
-        let pattern = j % 5;
+        let pattern = if j >= 1000 { 5 } else { j % 5 };
         let len = match pattern {
+            5 => (1usize << 33) + (1 << 30) + 7 + (j as usize % 3) * 64,
             3 => (1usize << 33) + (1 << 20),
             4 => (1usize << 34) + 77,
             _ => (1usize << 32) + delta,
@@ -79,6 +80,15 @@ impl Huge {
                 }
                 for p in [(1usize << 32) + 5, (1usize << 32) + 700, (1usize << 33) + 3, (1usize << 33) + 64, (1usize << 33) + 65, (1usize << 33) + 500, (1usize << 33) + 1000, (1usize << 33) + 70_000, len - 1] {
                     set(&mut words, p);
+                }
+            }
+            5 => {
+                for w in words.iter_mut() {
+                    *w = !0;
+                }
+                // a few zeros so that zero-related answers are not trivial
+                for p in [5usize, (1 << 32) + 1, (1 << 33) + 64, len - 2] {
+                    words[p / 64] &= !(1 << (p % 64));
                 }
             }
             _ => {
